@@ -21,6 +21,8 @@ What stands for library behaviour (trusted, tied by the correspondence check):
 * non-edge target orders are integers (a non-numeric order makes `_is_valid_non_edges` raise
   `TypeError`), every link atom carries an `order`, no `by_atom_id` links, no parameter effectors.
 -/
+import PolyplyVerif.Generated.LinkTables
+
 namespace PolyplyVerif.Links
 
 /-! ### attribute dictionaries and templates -/
@@ -95,6 +97,25 @@ def matchOrder : Order → Int → Order → Int → Bool
 def checkRelativeOrder : List (Order × Int) → Bool
   | [] => true
   | (o, r) :: rest => rest.all (fun p => matchOrder o r p.1 p.2) && checkRelativeOrder rest
+
+/-- the first loop of `_check_relative_order(resids, orders)`: the insertion-ordered dictionary
+`order_match` (first resid seen for every order token); `none` = `return False` because one order token is
+paired with two different resids -/
+def orderMatch : List (Order × Int) → List (Order × Int) → Option (List (Order × Int))
+  | acc, [] => some acc
+  | acc, (o, r) :: rest =>
+    match lookupKV acc o with
+    | none => orderMatch (acc ++ [(o, r)]) rest
+    | some r' => if r' == r then orderMatch acc rest else none
+
+/-- `_check_relative_order` as written, for ANY list of (order, resid) pairs, repeated orders included: the
+dictionary loop, then `match_order` on every 2-combination of its items.  (`tryCand` calls it with the
+pairwise distinct orders of a residue-level link, where it is `checkRelativeOrder`:
+`C02_check_relative_order`.) -/
+def checkRelativeOrderPy (l : List (Order × Int)) : Bool :=
+  match orderMatch [] l with
+  | none => false
+  | some d => checkRelativeOrder d
 
 /-! ### links -/
 
@@ -243,6 +264,10 @@ def resMatches (inp : Input) (l : Link) : List (List Nat) := resMatchesAux inp l
 
 /-! ### atom-level matching -/
 
+/-- `ignore = ['order', 'charge_group', 'replace', 'resid']` of `match_link_and_residue_atoms`.  Deliberately NOT
+taken from the translated `LinkTables.matchIgnore`: this list is also what the SPECIFICATION (`specOutput`) uses,
+and a specification that follows the source could no longer produce a failing input when the source changes.
+`C02_link_tables` proves that the translated list of the current source is this one (as a set). -/
 def matchIgnore : List String := ["order", "charge_group", "replace", "resid"]
 
 /-- `find_atoms(block, ignore, **attrs)` on the fragment graph of a residue -/
@@ -587,5 +612,171 @@ def danglingWindows (n N : Nat) (ixns : List BIxn) : List (String × List Nat ×
   (List.range N).flatMap fun j =>
     (ixns.filter (isDangling n)).filterMap fun i =>
       if j + (i.atoms.foldl max 0) / n < N then some (i.sect, i.atoms.map (· + j * n), i.params) else none
+
+/-! ### the `[ edges ]` directive of polyply `.ff` files (`ff_parser_sub._parse_edges_new`)
+
+One line `atom1 atom2 {attributes}`: the attributes written after an atom are that atom's, vermouth's
+`_treat_atom_prefix` adds `atomname` / `order` from the prefixed name; `_parse_edges_new` pops
+`atomname`, `order`, `resname` (the translated list `LinkTables.edgePoppedKeys`), rejects what is left on the
+FIRST atom and labels the edge with what is left on the SECOND one (this is how `linktype` gets onto a link
+edge).  `non-edges` outside links are rejected.  In a `[ modification ]` both atoms have to exist already —
+the code tests `prefixed_atom[0]`, the first CHARACTER of the reference (notes/C02_findings.md). -/
+
+structure EdgeAtom where
+  ref : String                   -- the prefixed reference as written (`BB`, `+BB`, `>SC1`)
+  attrs : MAttrs                 -- the attributes written after it (`{...}`), encoded values
+deriving Repr, DecidableEq
+
+inductive EdgeParse where
+  | ioError                                        -- `IOError`
+  | keyError                                       -- `KeyError` (modification: atom not found)
+  | edge (a b : String) (attrs : MAttrs)           -- `context.add_edge(a, b, **attrs)`
+deriving Repr, DecidableEq
+
+/-- what is left of an atom's attributes after `attributes.pop(key, None)` for the popped keys -/
+def edgeExtra (a : EdgeAtom) : MAttrs := a.attrs.filter (fun kv => !LinkTables.edgePoppedKeys.contains kv.1)
+
+/-- `prefixed_atom[0]` -/
+def firstChar (s : String) : String := (s.take 1).toString
+
+/-- `_parse_edges_new(tokens, context, context_type, negate)` on a line with two atoms; `nodes` = the node
+keys of the context -/
+def parseEdgesNew (contextType : String) (negate : Bool) (nodes : List String) (a b : EdgeAtom) : EdgeParse :=
+  if negate then .ioError
+  else if !(edgeExtra a).isEmpty then .ioError
+  else if contextType == "modification" && !(nodes.contains (firstChar a.ref) && nodes.contains (firstChar b.ref)) then .keyError
+  else .edge a.ref b.ref (edgeExtra b)
+
+/-! the chain and the path-shaped link of the window statement (`C02_dangling_windows`) -/
+
+/-- chain of `N` one-atom residues named A (keys 0..N-1, resid = key + 1) -/
+def chainInput (N : Nat) (links : List Link) : Input :=
+  { atoms := (List.range N).map (fun i => ⟨i, i + 1, [("atomname", "s:BB"), ("resname", "s:A")]⟩),
+    edges := [], ixns := [], molMeta := [],
+    res := (List.range N).map (fun i => ⟨i, i + 1, [("resname", "s:A")], [(i, [("atomname", "s:BB"), ("resname", "s:A")])]⟩),
+    redges := (List.range (N - 1)).map (fun i => (i, i + 1, none)),
+    links := links }
+
+/-- the link a dangling angle-like interaction over `k+1` consecutive residues stands for: atoms `BB`, `+BB`, … bonded in a path -/
+def pathLink (k : Nat) : Link :=
+  let key := fun (i : Nat) => plusPrefix i ++ "BB"
+  { atoms := (List.range (k + 1)).map (fun i => ⟨key i, .num i, [("atomname", .eq "s:BB"), ("resname", .eq "s:A")], [], false⟩),
+    ixns := [⟨"x", (List.range (k + 1)).map key, 1, ["p"], []⟩],
+    edges := (List.range k).map (fun i => (key i, key (i + 1), none)),
+    nonEdges := [], patterns := [], molMeta := [] }
+
+/-- the windows `[j, j+1, …, j+k]` that fit into `0..N-1` -/
+def windows (N k : Nat) : List (List Nat) := (List.range (N - k)).map (fun j => (List.range (k + 1)).map (· + j))
+
+/-! ### explicit links (`apply_explicit_link`, the last loop of `ApplyLinks.run_molecule`)
+
+A link whose `[ molmeta ]` says `by_atom_id true` addresses atoms by their 1-based NUMBER in the generated
+molecule.  After the flush of `applied_links`, `run_molecule` visits those links in definition order and
+their interactions section by section: the atom tokens are converted with `int(atom) - 1` (`ValueError`
+if a token is not a number); if every atom is a node of the molecule the interaction is written with
+vermouth's `Molecule.add_or_replace_interaction` (the FIRST interaction of that section with equal atoms
+and equal `meta.get('version', 0)` is replaced in place, otherwise the new one is appended) and edges are
+added between consecutive atoms; otherwise `IOError` is raised and the whole run fails.
+
+Not modelled: the in-place rewrite of the link's atom list (`interaction.atoms[:] = …`), which makes a
+SECOND application of the same link object see numbers lowered twice (gen_params loads a fresh force
+field per call and applies every link once). -/
+
+/-- an interaction of a `by_atom_id` link as written in the file; an atom token is `some n` if `int(token)`
+gives `n`, `none` if `int(token)` raises `ValueError` (the driver converts decimal numerals, optionally
+signed with `-`, with `String.toInt?`; the generator writes no other numeric spelling) -/
+structure XIxn where
+  sect : String
+  atoms : List (Option Int)
+  params : List String
+  imeta : MAttrs
+deriving Repr, DecidableEq
+
+def allSome {α} : List (Option α) → Option (List α)
+  | [] => some []
+  | none :: _ => none
+  | some a :: rest => (allSome rest).map (a :: ·)
+
+/-- `[int(atom) for atom in interaction.atoms]` (`none` = `ValueError`) -/
+def XIxn.ints (i : XIxn) : Option (List Int) := allSome i.atoms
+
+/-- `meta.get('version', 0)` as a token (`add_or_replace_interaction` compares THIS, not the
+`meta.get('version', 1)` of the `applied_links` key) -/
+def verTok (m : MAttrs) : Val := (MAttrs.find m "version").getD "i:0"
+
+/-- what `add_or_replace_interaction` compares: section, atoms, `meta.get('version', 0)` -/
+structure XKey where
+  sect : String
+  atoms : List Nat
+  ver : Val
+deriving Repr, DecidableEq
+
+inductive XErr where
+  | value      -- `ValueError`: an atom token is not an integer
+  | io         -- `IOError`: an atom is not part of the molecule
+deriving Repr, DecidableEq
+
+/-- the part of the molecule the explicit links write to -/
+structure XSt where
+  ixns : List (XKey × IVal)
+  edges : List (Nat × Nat)
+deriving Repr, DecidableEq
+
+/-- 0-based node keys of an interaction whose number tokens are `as`; `none` if one of them is not a
+node (`set(atoms).issubset(set(molecule.nodes))` fails; a number `≤ 0` never is a node) -/
+def xatoms (nodes : List Nat) : List Int → Option (List Nat)
+  | [] => some []
+  | a :: rest =>
+    if 1 ≤ a ∧ nodes.contains (a - 1).toNat = true then (xatoms nodes rest).map ((a - 1).toNat :: ·) else none
+
+/-- `zip(atoms[:-1], atoms[1:])` -/
+def consecutive (atoms : List Nat) : List (Nat × Nat) := atoms.zip atoms.tail
+
+/-- one interaction of an explicit link -/
+def explicitStep (nodes : List Nat) (s : XSt) (i : XIxn) : Except XErr XSt :=
+  match i.ints with
+  | none => .error .value
+  | some as =>
+    match xatoms nodes as with
+    | none => .error .io
+    | some atoms =>
+      .ok { ixns := insertKV s.ixns ⟨i.sect, atoms, verTok i.imeta⟩ ⟨i.params, i.imeta⟩,
+            edges := (consecutive atoms).foldl addEdge s.edges }
+
+/-- all interactions of all `by_atom_id` links, in the order the code visits them; the first exception
+ends the run -/
+def applyExplicit (nodes : List Nat) : XSt → List XIxn → Except XErr XSt
+  | s, [] => .ok s
+  | s, i :: rest =>
+    match explicitStep nodes s i with
+    | .error e => .error e
+    | .ok s' => applyExplicit nodes s' rest
+
+/-- the exception a run ended with, if any -/
+def xerr (r : Except XErr XSt) : Option XErr :=
+  match r with
+  | .error e => some e
+  | .ok _ => none
+
+def Output.xst (o : Output) : XSt :=
+  ⟨o.ixns.map (fun kv => (⟨kv.1.sect, kv.1.atoms, verTok kv.2.imeta⟩, kv.2)), o.edges⟩
+
+/-- `run_molecule` from the double loop to just before `expand_excl`: link application, node removal,
+flush, explicit links (`xs` = the interactions of the `by_atom_id` links of the force field, in order) -/
+def runMolecule (inp : Input) (xs : List XIxn) : Except XErr XSt :=
+  let out := applyLinks inp
+  applyExplicit (out.atoms.map (·.1)) out.xst xs
+
+/-! specification side of the explicit links -/
+
+/-- "all atoms exist": every token is a number between 1 and … that names a node -/
+def XIxn.wellAddressed (nodes : List Nat) (i : XIxn) : Prop :=
+  ∃ as, i.ints = some as ∧ ∀ a ∈ as, 1 ≤ a ∧ (a - 1).toNat ∈ nodes
+
+/-- the node keys an interaction addresses (totalised: 0 for what `wellAddressed` excludes) -/
+def XIxn.nodes (i : XIxn) : List Nat := (i.ints.getD []).map (fun a => (a - 1).toNat)
+
+/-- the entry an explicit interaction writes -/
+def XIxn.contrib (i : XIxn) : XKey × IVal := (⟨i.sect, i.nodes, verTok i.imeta⟩, ⟨i.params, i.imeta⟩)
 
 end PolyplyVerif.Links
